@@ -242,7 +242,7 @@ CHECKS = {
              "configuration; the limiter object is the same).",
         ref="DESIGN.md 4 C14"),
     "C20": dict(
-        module="KMAudit",
+        module="KMAudit + KMRecorderLoop",
         technique="TLA+ models of the bounded-buffer fan-out and of the history recorder (TLC + negative controls) ; real "
                   "subscribers on the CONNECT endpoint with certificates through every issuing path ; TLC-simulated recorder "
                   "histories in-package ; TLC trace monitor",
@@ -253,9 +253,13 @@ CHECKS = {
              "ssh, ssh-with-Ed25519-CA, x509, kubernetes, automation, refresh and cloud-role paths and logins are made; event "
              "bytes are matched to response bytes, order and latency with the stalled subscriber are checked. Recorder "
              "histories (save at every prefix, retention edges, TLC-simulated sequences) run through the package's own "
-             "functions compiled in-package, and the monitor compares the observed lists with the specification's.",
+             "functions compiled in-package, and the monitor compares the observed lists with the specification's. "
+             "KMRecorderLoop models the recorder's event loop (snapshot cache invalidated by every event, save five "
+             "seconds after a change, restart); the REAL eventLoop is driven through its channels (events of all five "
+             "kinds, dashboard queries, the delayed save, restarts from the saved file) and judged by its monitor; a "
+             "publication flood with a subscriber that reads nothing decides NeverBlocks.",
         note="'No later than the response' is observed as arrival within one second at a draining subscriber; the monitord "
-             "network client is not driven (the recorder functions are).",
+             "network client is not driven (the recorder's loop and functions are).",
         ref="DESIGN.md 4 C20"),
     "C07": dict(
         module="KMPassword",
